@@ -31,13 +31,49 @@ func specTimes(t, u T) T { return T(rt.GFMul(uint16(t), uint16(u))) }
 // the loop body is run from an arbitrary value of the outer index, with
 // T.Times replaced by its verified contract.
 func VerifHarness_C09_table_mulTable() {
+	nativeTableCheck()
 	rt.Replace("(github.com/akalin/gopar/gf2p16.T).Times", specTimes)
+	rt.TableLoop("i", 0, 1<<16, 2*256)
 	rt.RunLoopBody("@gf2p16-table-init", 1, func(i int) bool { return i >= 0 })
 }
 
 func VerifHarness_C09_table_mulTable64() {
+	nativeTableCheck()
 	rt.Replace("(github.com/akalin/gopar/gf2p16.T).Times", specTimes)
+	rt.TableLoop("i", 0, 1<<16, 8*16)
 	rt.RunLoopBody("github.com/akalin/gopar/gf2p16.platformInit", 0, func(i int) bool { return i >= 0 })
+}
+
+// Native side of the table harnesses: the tables the package initialisation
+// really built, at the index the solver reported (and its neighbours, and the
+// last entries), against the specification of the field product.
+func nativeTableCheck() {
+	if rt.IsSymbolic() {
+		return
+	}
+	i := int(rt.U64("loop_i"))
+	ok, ok64 := true, true
+	for _, c := range []int{i - 1, i, i + 1, 1, 2, 1<<16 - 2, 1<<16 - 1} {
+		if c < 0 || c >= 1<<16 {
+			continue
+		}
+		for j := 0; j < 256; j++ {
+			if uint16(mulTable[c].s0[j]) != rt.GFMul(uint16(c), uint16(j)) || uint16(mulTable[c].s8[j]) != rt.GFMul(uint16(c), uint16(j)<<8) {
+				ok = false
+			}
+		}
+		e := &mulTable64[c]
+		for j := 0; j < 16; j++ {
+			for k, f := range [][2]*[16]byte{{&e.s0Low, &e.s0High}, {&e.s4Low, &e.s4High}, {&e.s8Low, &e.s8High}, {&e.s12Low, &e.s12High}} {
+				want := rt.GFMul(uint16(c), uint16(j)<<(4*uint(k)))
+				if f[0][j] != byte(want) || f[1][j] != byte(want>>8) {
+					ok64 = false
+				}
+			}
+		}
+	}
+	rt.Assert(ok, "table-contract: mulTable entries equal the field products (native tables)")
+	rt.Assert(ok64, "table-contract: mulTable64 entries equal the field products (native tables)")
 }
 
 // Dispatch arithmetic for every non-negative length: the SIMD kernel gets the
